@@ -306,6 +306,9 @@ def rule_chain(ctx):
         ctx.holds("C16.CHAIN", f.short, "re-definition continues the chain from the previous mirror values", fi=f)
 
 
+# the last event's new value is the current value: the mirror itself must be right
+IMPORTS = [('C15', 'C15.MIRROR')]
+
 RULES = [
     ("C16.FILTER", rule_filter, "callback filter truth table (432 rows)"),
     ("C16.RM", rule_rm, "removal by every combination of criteria; onevent appends and returns the uuid"),
